@@ -3,6 +3,8 @@ import MpirProofs.Lemmas.Base
 import Mpir.Model.Numth
 import Mpir.Ops.Numth
 import Mathlib.NumberTheory.Primorial
+import Mathlib.NumberTheory.Padics.PadicVal.Basic
+import Mathlib.Data.Nat.Factorization.Basic
 import Mathlib.Data.Nat.Fib.Basic
 import Mathlib.Data.Nat.Factorial.Basic
 import Mathlib.Data.Nat.Factorial.DoubleFactorial
@@ -339,6 +341,8 @@ theorem FibPair.le {k : ℕ} {p : ℕ × ℕ} (h : FibPair k p) (hk : 1 ≤ k) :
   have := @Nat.fib_le_fib_succ k'
   omega
 
+theorem FIB_TABLE_LIMIT_ge : 2 ≤ FIB_TABLE_LIMIT := by decide
+
 theorem mpz_fib_ui_eq (n : ℕ)
     (hclaim : n % 4 = 1 → FIB_TABLE_LIMIT < n → Nat.fib n % B ≠ 1) : mpz_fib_ui n = Nat.fib n := by
   unfold mpz_fib_ui
@@ -349,7 +353,7 @@ theorem mpz_fib_ui_eq (n : ℕ)
     have hpair := mpn_fib2_ui_pair (n / 2)
     generalize mpn_fib2_ui (n / 2) = p at hpair
     obtain ⟨x, y⟩ := p
-    have hk1 : 1 ≤ n / 2 := by have : FIB_TABLE_LIMIT = 93 := rfl; omega
+    have hk1 : 1 ≤ n / 2 := by have := FIB_TABLE_LIMIT_ge; omega
     have hle : y ≤ x := hpair.le hk1
     obtain ⟨hx, hy⟩ := hpair
     simp only at hx hy hle ⊢
@@ -1738,5 +1742,178 @@ theorem codeOk_none (n : ℕ) (r : ℤ) (codes : List ℤ) (strict : Bool) (h : 
   · refine ⟨fun hp => absurd (isPrime_of_prime n hp) h2, fun h2' => absurd h2' h4, fun hs _ => ?_⟩
     by_contra hne
     exact h5 (by simp [hs, hne])
+
+/-! ## The low-limb claim of mpz/fib_ui.c: F(n) mod 2^64 ≠ 1 for n ≡ 1 (mod 4), 1 < n < 2^64 -/
+
+/-- Lucas number L(m) for m ≥ 1 -/
+def lucN (m : ℕ) : ℕ := Nat.fib (m + 1) + Nat.fib (m - 1)
+
+theorem fib_two_mul_luc (m : ℕ) (hm : 1 ≤ m) : Nat.fib (2 * m) = Nat.fib m * lucN m := by
+  obtain ⟨k, rfl⟩ : ∃ k, m = k + 1 := ⟨m - 1, by omega⟩
+  rw [Nat.fib_two_mul, lucN]
+  simp only [Nat.add_sub_cancel]
+  have h1 : Nat.fib (k + 1 + 1) = Nat.fib k + Nat.fib (k + 1) := Nat.fib_add_two
+  congr 1; omega
+
+/-- F(4j+1) - 1 = F(2j) L(2j+1) -/
+theorem fib_four_mul_add_one (j : ℕ) : Nat.fib (4 * j + 1) = Nat.fib (2 * j) * lucN (2 * j + 1) + 1 := by
+  have h1 := Nat.fib_two_mul_add_one (2 * j)
+  rw [show 2 * (2 * j) + 1 = 4 * j + 1 by ring] at h1
+  obtain ⟨c1, _⟩ := cassini_nat (2 * j) (Nat.fib (2 * j)) (Nat.fib (2 * j + 1)) rfl rfl
+  have hc := c1 (by omega)
+  have h2 : Nat.fib (2 * j + 1 + 1) = Nat.fib (2 * j) + Nat.fib (2 * j + 1) := Nat.fib_add_two
+  rw [h1, lucN, h2]
+  simp only [Nat.add_sub_cancel]
+  nlinarith
+
+theorem fib_add_three_mod2 (n : ℕ) : Nat.fib (n + 3) % 2 = Nat.fib n % 2 := by
+  have h := Nat.fib_add n 2
+  have e2 : Nat.fib 2 = 1 := by decide
+  have e3 : Nat.fib 3 = 2 := by decide
+  rw [show n + 2 + 1 = n + 3 by omega, e2, show 2 + 1 = 3 by rfl, e3] at h
+  omega
+
+/-- F(m) is even exactly when 3 ∣ m -/
+theorem fib_even_iff (m : ℕ) : Nat.fib m % 2 = 0 ↔ m % 3 = 0 := by
+  induction m using Nat.strong_induction_on with
+  | _ m ih =>
+    match m with
+    | 0 => decide
+    | 1 => decide
+    | 2 => decide
+    | m + 3 => rw [fib_add_three_mod2, ih m (by omega)]; omega
+
+theorem lucN_mod2 (m : ℕ) (hm : 1 ≤ m) : lucN m % 2 = Nat.fib m % 2 := by
+  obtain ⟨k, rfl⟩ : ∃ k, m = k + 1 := ⟨m - 1, by omega⟩
+  unfold lucN
+  simp only [Nat.add_sub_cancel]
+  have h1 : Nat.fib (k + 1 + 1) = Nat.fib k + Nat.fib (k + 1) := Nat.fib_add_two
+  omega
+
+/-- L(m) is never divisible by 8, and L(m) is not divisible by 4 for even m -/
+theorem lucN_mod8 (m : ℕ) (hm : 1 ≤ m) : lucN m % 8 ≠ 0 ∧ (m % 2 = 0 → lucN m % 4 ≠ 0) := by
+  induction m using Nat.strong_induction_on with
+  | _ m ih =>
+    by_cases hs : m ≤ 13
+    · interval_cases m <;> decide
+    · obtain ⟨k, rfl⟩ : ∃ k, m = k + 12 := ⟨m - 12, by omega⟩
+      obtain ⟨h1, h2⟩ := ih k (by omega) (by omega)
+      have e1 := fib_add_twelve_mod8 (k + 1)
+      have e2 := fib_add_twelve_mod8 (k - 1)
+      have : lucN (k + 12) % 8 = lucN k % 8 := by
+        unfold lucN
+        rw [show k + 12 + 1 = k + 1 + 12 by ring, show k + 12 - 1 = k - 1 + 12 by omega]
+        omega
+      constructor
+      · rw [this]; exact h1
+      · intro he; have := h2 (by omega); omega
+
+instance : Fact (Nat.Prime 2) := ⟨Nat.prime_two⟩
+
+theorem v2_le_of_not_dvd (x k : ℕ) (hx : x ≠ 0) (h : ¬ 2 ^ (k + 1) ∣ x) : padicValNat 2 x ≤ k := by
+  by_contra hc
+  exact h ((padicValNat_dvd_iff_le hx).2 (by omega))
+
+theorem fib_ne_zero (m : ℕ) (hm : 1 ≤ m) : Nat.fib m ≠ 0 := by
+  have := Nat.fib_pos.2 (by omega : 0 < m); omega
+
+theorem lucN_ne_zero (m : ℕ) : lucN m ≠ 0 := by
+  unfold lucN; have := Nat.fib_pos.2 (by omega : 0 < m + 1); omega
+
+/-- v₂(F(2^k u)) ≤ 1 for k = 0 and ≤ k + 2 for k ≥ 1 (u odd) -/
+theorem v2_fib_le (u : ℕ) (hu : u % 2 = 1) : ∀ k, padicValNat 2 (Nat.fib (2 ^ k * u)) ≤ if k = 0 then 1 else k + 2 := by
+  intro k
+  induction k with
+  | zero =>
+    simp only [pow_zero, one_mul, if_true]
+    apply v2_le_of_not_dvd _ _ (fib_ne_zero u (by omega))
+    intro h
+    exact fib_odd_mod4 u hu (Nat.mod_eq_zero_of_dvd (by simpa using h))
+  | succ k ih =>
+    have hpos : 1 ≤ 2 ^ k * u := Nat.mul_pos (Nat.two_pow_pos k) (by omega)
+    rw [show 2 ^ (k + 1) * u = 2 * (2 ^ k * u) by rw [pow_succ]; ring, fib_two_mul_luc _ hpos,
+      padicValNat.mul (fib_ne_zero _ hpos) (lucN_ne_zero _)]
+    simp only [Nat.add_one_ne_zero, if_false]
+    rcases Nat.eq_zero_or_pos k with rfl | hk
+    · simp only [pow_zero, one_mul, if_true] at ih ⊢
+      obtain ⟨l8, _⟩ := lucN_mod8 u (by omega)
+      have : padicValNat 2 (lucN u) ≤ 2 :=
+        v2_le_of_not_dvd _ _ (lucN_ne_zero u) (fun h => l8 (Nat.mod_eq_zero_of_dvd (by simpa using h)))
+      omega
+    · have hk0 : k ≠ 0 := by omega
+      simp only [hk0, if_false] at ih
+      obtain ⟨_, l4⟩ := lucN_mod8 (2 ^ k * u) hpos
+      have heven : 2 ^ k * u % 2 = 0 := by
+        obtain ⟨k', rfl⟩ : ∃ k', k = k' + 1 := ⟨k - 1, by omega⟩
+        have : 2 ^ (k' + 1) * u = 2 * (2 ^ k' * u) := by rw [pow_succ]; ring
+        omega
+      have : padicValNat 2 (lucN (2 ^ k * u)) ≤ 1 :=
+        v2_le_of_not_dvd _ _ (lucN_ne_zero _) (fun h => l4 heven (Nat.mod_eq_zero_of_dvd (by simpa using h)))
+      omega
+
+/-- mpz/fib_ui.c:36-43 "No proof for this claim": for n ≡ 1 (mod 4), 1 < n < 2^64, the low limb of F(n) is not 1 -/
+theorem fib_low_limb_ne_one (n : ℕ) (hn : n < B) (h4 : n % 4 = 1) (h1 : 1 < n) : Nat.fib n % B ≠ 1 := by
+  intro hmod
+  obtain ⟨j, rfl⟩ : ∃ j, n = 4 * j + 1 := ⟨n / 4, by omega⟩
+  have hj : 1 ≤ j := by omega
+  have hid := fib_four_mul_add_one j
+  have hdvd : B ∣ Nat.fib (2 * j) * lucN (2 * j + 1) := by
+    have := Nat.div_add_mod (Nat.fib (4 * j + 1)) B
+    rw [hmod, hid] at this
+    exact ⟨(Nat.fib (2 * j) * lucN (2 * j + 1) + 1) / B, by omega⟩
+  have hF0 := fib_ne_zero (2 * j) (by omega)
+  have hL0 := lucN_ne_zero (2 * j + 1)
+  have hv : 64 ≤ padicValNat 2 (Nat.fib (2 * j)) + padicValNat 2 (lucN (2 * j + 1)) := by
+    rw [← padicValNat.mul hF0 hL0]
+    exact (padicValNat_dvd_iff_le (Nat.mul_ne_zero hF0 hL0)).1 (by rw [B] at hdvd; exact hdvd)
+  have hLpar := lucN_mod2 (2 * j + 1) (by omega)
+  by_cases h3 : (2 * j + 1) % 3 = 0
+  · -- F(2j) odd, v2(L) ≤ 2
+    have hFodd : ¬ 2 ∣ Nat.fib (2 * j) := by
+      intro hd
+      have := (fib_even_iff (2 * j)).1 (Nat.mod_eq_zero_of_dvd hd); omega
+    have e0 : padicValNat 2 (Nat.fib (2 * j)) = 0 := padicValNat.eq_zero_of_not_dvd hFodd
+    obtain ⟨l8, _⟩ := lucN_mod8 (2 * j + 1) (by omega)
+    have : padicValNat 2 (lucN (2 * j + 1)) ≤ 2 :=
+      v2_le_of_not_dvd _ _ hL0 (fun h => l8 (Nat.mod_eq_zero_of_dvd (by simpa using h)))
+    omega
+  · -- L(2j+1) odd
+    have hLodd : ¬ 2 ∣ lucN (2 * j + 1) := by
+      intro hd
+      have h0 : lucN (2 * j + 1) % 2 = 0 := Nat.mod_eq_zero_of_dvd hd
+      rw [hLpar] at h0
+      exact h3 ((fib_even_iff _).1 h0)
+    have e0 : padicValNat 2 (lucN (2 * j + 1)) = 0 := padicValNat.eq_zero_of_not_dvd hLodd
+    have hv64 : 64 ≤ padicValNat 2 (Nat.fib (2 * j)) := by omega
+    -- 3 ∣ j
+    have h3j : j % 3 = 0 := by
+      have : 2 ∣ Nat.fib (2 * j) := by
+        have := (padicValNat_dvd_iff_le (p := 2) (n := 1) hF0).2 (by omega)
+        simpa using this
+      have := (fib_even_iff (2 * j)).1 (Nat.mod_eq_zero_of_dvd this); omega
+    obtain ⟨k, u, hu, hku⟩ := Nat.exists_eq_two_pow_mul_odd (n := 2 * j) (by omega)
+    have hu' : u % 2 = 1 := Nat.odd_iff.mp hu
+    have hb := v2_fib_le u hu' k
+    rw [← hku] at hb
+    have hk62 : 62 ≤ k := by
+      by_cases hk0 : k = 0
+      · simp only [hk0, if_true] at hb; omega
+      · simp only [hk0, if_false] at hb; omega
+    -- 2^61 ∣ j and 3 ∣ j, so j ≥ 3 * 2^61
+    have h2j : 2 ^ 62 ∣ 2 * j := by
+      rw [hku]; exact Dvd.dvd.mul_right (Nat.pow_dvd_pow 2 hk62) u
+    have hdj : 2 ^ 61 ∣ j := by
+      obtain ⟨c, hc⟩ := h2j
+      have e : (2 : ℕ) ^ 62 = 2 * 2 ^ 61 := by norm_num
+      rw [e, mul_assoc] at hc
+      exact ⟨c, Nat.eq_of_mul_eq_mul_left (by norm_num) hc⟩
+    have h3d : 3 ∣ j := Nat.dvd_of_mod_eq_zero h3j
+    have hcop : Nat.Coprime 3 (2 ^ 61) := Nat.Coprime.pow_right 61 (by norm_num)
+    have hdiv : 3 * 2 ^ 61 ∣ j := Nat.Coprime.mul_dvd_of_dvd_of_dvd hcop h3d hdj
+    have hle := Nat.le_of_dvd hj hdiv
+    rw [B_eq] at hn
+    norm_num at hle
+    clear h2j hdj hdiv hcop hb hku hdvd
+    omega
 
 end Mpir.Numth
